@@ -219,6 +219,9 @@ class MemoWorld(World):
 
         def f(*args, **kwargs):
             self.calls += 1
+            if target == 'stampede':
+                ENV.now += 0.25      # the function takes time (stampede
+                #                      measures it to decide on early refresh)
             return (args, tuple(sorted(kwargs.items())))
 
         self.f = f
@@ -319,8 +322,21 @@ class MemoWorld(World):
             if ttl != 0:
                 self.table[strict] = (want, ENV.now, loose)
         if not problems and not same(got, want_result):
-            problems.append(('wrong-result', 'call %r returned %r, the '
-                             'function returns %r' % (op, got, want_result)))
+            reason = None
+            for res, at, _ in self.table.values():
+                if same(res, got) and not same(res, want):
+                    a0, k0 = res
+                    if repr(flat(a0, k0, self.ignore)) == repr(
+                            flat(args, kw, self.ignore)):
+                        reason = 'flattened-equal'
+            if reason:
+                problems.append(('shared-entry', 'call %r returned %r, the '
+                                 'result of a different call'
+                                 % (op, got), reason))
+            else:
+                problems.append(('wrong-result', 'call %r returned %r, the '
+                                 'function returns %r'
+                                 % (op, got, want_result)))
         if ttl == 0 and self.target in ('cache', 'fanout', 'django',
                                         'django-v2'):
             n = len(self.cache) if not self.target.startswith('django') \
